@@ -5,11 +5,14 @@ package caskethttp
 
 import (
 	"context"
+	"io"
 	"net/http"
 	"net/url"
 	"strings"
 
+	"github.com/mholt/archiver/v3"
 	"github.com/tmpim/casket/caskethttp/basicauth"
+	"github.com/tmpim/casket/caskethttp/browse"
 	"github.com/tmpim/casket/caskethttp/extensions"
 	"github.com/tmpim/casket/caskethttp/httpserver"
 	"github.com/tmpim/casket/caskethttp/internalsrv"
@@ -119,4 +122,54 @@ func VerifH03cComposition() {
 		verifrt.Assert(!strings.Contains(body, "P") && !strings.Contains(body, "Q"), "protected-content-not-disclosed")
 	}
 	verifrt.Observe("compose", status, w.status, body)
+}
+
+// zzArchive03 stands in for the archive encoder under the engine (member names and bytes, verbatim).
+type zzArchive03 struct{ out io.Writer }
+
+func (a *zzArchive03) Create(out io.Writer) error { a.out = out; return nil }
+func (a *zzArchive03) Write(f archiver.File) error {
+	io.WriteString(a.out, "<"+f.Name()+">")
+	if f.ReadCloser != nil {
+		b, err := io.ReadAll(f.ReadCloser)
+		if err != nil {
+			return err
+		}
+		a.out.Write(b)
+	}
+	return nil
+}
+func (a *zzArchive03) Close() error { return nil }
+
+// VerifH03dArchiveBehindGate: browse with archives enabled behind the gate: a request without
+// credentials for an archive of any directory never receives the bytes of a file under the protected
+// path.
+func VerifH03dArchiveBehindGate() {
+	verifrt.Terminates()
+	verifrt.Concurrent(-1)
+	base := verifrt.FSRoot()
+	root := base + "/site"
+	verifrt.FSPut(root+"/s/p", []byte("P"))
+	verifrt.FSPut(root+"/t", []byte("T"))
+	verifrt.FSPut(root+"/d/x", []byte("X"))
+	fsrv := staticfiles.FileServer{Root: http.Dir(root)}
+	verifrt.Stub("(github.com/tmpim/casket/caskethttp/browse.ArchiveType).GetWriter", func(browse.ArchiveType) archiver.Writer { return &zzArchive03{} })
+	br := browse.Browse{Next: fsrv, Configs: []browse.Config{{PathScope: "/", Fs: fsrv, ArchiveTypes: []browse.ArchiveType{browse.ArchiveTar}, BufferSize: 64}}}
+	var gate httpserver.Handler
+	if verifrt.Choose("gate", 2) == 0 {
+		gate = basicauth.BasicAuth{Next: br, SiteRoot: root, Rules: []basicauth.Rule{{Username: "u", Password: func(pw string) bool { return pw == "pw" }, Resources: []string{"/s"}}}}
+	} else {
+		gate = internalsrv.Internal{Next: br, Paths: []string{"/s"}}
+	}
+	dir := []string{"/", "/s/", "/d/", "/d/../", "/s/../"}[verifrt.Choose("dir", 5)]
+	if dir == "/" || dir == "/d/../" || dir == "/s/../" {
+		// the archive of a directory that CONTAINS the protected one: the input class of the recorded known finding
+		verifrt.Tag("archive-of-an-ancestor-of-the-protected-directory")
+	}
+	r := &http.Request{Method: "GET", URL: &url.URL{Path: dir, RawQuery: "archive=tar"}, Header: http.Header{}, Host: "h", Proto: "HTTP/1.1", ProtoMajor: 1, ProtoMinor: 1}
+	r = r.WithContext(context.WithValue(r.Context(), httpserver.OriginalURLCtxKey, *r.URL))
+	w := &zzW03{}
+	status, _ := gate.ServeHTTP(w, r)
+	verifrt.Assert(!strings.Contains(string(w.body), "P"), "protected-content-not-in-archive")
+	verifrt.Observe("archive", status, w.status, strings.Contains(string(w.body), "X"))
 }
